@@ -3,6 +3,7 @@ import logging
 import weakref
 import trio
 import functools
+import inspect
 import threading
 
 from types import ModuleType
@@ -98,6 +99,11 @@ def service(flavour):
             self.__service_unit__ = service_unit
             return self
 
+        # creating an instance still takes the arguments of the class itself:
+        # advertise them instead of ``(*args, **kwargs)`` to signature inspection
+        __new_service__.__signature__ = inspect.signature(
+            raw_cls.__init__ if __new__ is object.__new__ else __new__
+        )
         raw_cls.__new__ = __new_service__
         if raw_cls.run.__doc__ is None:
             raw_cls.run.__doc__ = "Service entry point"
